@@ -987,6 +987,10 @@ func (d *drv) boundarySweep(doc *docgen.Doc, hi int, lf docgen.Leaf) {
 			d.fail(fmt.Sprintf("the %s field at %v rejects the in-range value %s: %s", lf.Fact.Datatype, lf.DocPath, z, o.Msg),
 				failInput{Kind: "range", Class: "c03-in-range-rejected", Doc: string(v), Hasher: hi, Leaf: &lf, Siblings: 1, Note: "in"})
 		}
+		if doc.Features["int-doc"] && (!inRange || d.rng.Intn(8) == 0) {
+			// the model decides acceptance (range ends of the type under this prime) and the root
+			d.variantCase(v, hi, o, d.rng.Intn(3) == 0, "int-range")
+		}
 		if o.Class != "ok" {
 			continue
 		}
@@ -1211,6 +1215,9 @@ func (d *drv) fractions(doc *docgen.Doc, hi int, lf docgen.Leaf, roots, docs map
 		v, _ := json.Marshal(obj)
 		o, _, _ := d.observe(v, hi)
 		d.rep.Count("fraction:" + o.Class)
+		if doc.Features["int-doc"] || d.rng.Intn(4) == 0 {
+			d.variantCase(v, hi, o, d.rng.Intn(4) == 0, "fraction")
+		}
 		if o.Class != "ok" {
 			continue
 		}
@@ -1258,7 +1265,7 @@ func (d *drv) docCase(doc *docgen.Doc, hi int, nRepeat int) {
 			d.datasetCase(ds, hi, failInput{Kind: "doc-dataset", Doc: string(doc.Bytes), Hasher: hi}, 3)
 		}
 		if base.Class == "ok" && (len(ds.Graphs) > 1 || d.id%2 == 0) {
-			d.treeCase(ds, hi, failInput{Kind: "doc-dataset", Doc: string(doc.Bytes), Hasher: hi}, base.Root, 2)
+			d.treeCase(ds, hi, failInput{Kind: "doc-dataset", Doc: string(doc.Bytes), Hasher: hi}, base.Root, 2, base)
 		}
 	}
 	d.metamorphic(doc, hi, base)
@@ -1550,6 +1557,29 @@ func renameDS(rng *rand.Rand, ds *ld.RDFDataset) *ld.RDFDataset {
 	return out
 }
 
+// variantCase: the dataset of a variant document goes to the Coq model (entries, one graph
+// order); with tree = true also to the root-level model, compared with what MerklizeJSONLD
+// itself returned (o).
+func (d *drv) variantCase(v []byte, hi int, o *obs, tree bool, note string) {
+	ds, err := mzrun.Normalize(v, d.loader, true)
+	if err != nil {
+		return
+	}
+	d.frMu.Lock()
+	for _, s := range mzrun.DoubleLexicals(ds) {
+		d.fr.AddStr(s)
+	}
+	d.frMu.Unlock()
+	h := d.hs[hi]
+	views, out := mzrun.Entries(ds, h)
+	d.rep.Evaluations++
+	in := failInput{Kind: "doc-dataset", Doc: string(v), Hasher: hi, Note: note}
+	d.cases = append(d.cases, &rcase{ds: ds, order: mzrun.GraphOrder(ds, nil), prime: h.Prime(), views: views, out: out, input: in})
+	if tree {
+		d.treeCase(ds, hi, in, "", 1, o)
+	}
+}
+
 // labelsCase: blank-node labels renamed (monotone on graph names only): same outcome, and
 // the model agrees with the implementation on the renamed dataset as well.
 func (d *drv) labelsCase(ds *ld.RDFDataset, hi int, ref string) {
@@ -1584,6 +1614,7 @@ func (d *drv) dupPath(hi int) {
 	docA := mk(names[0], names[1])
 	oa, _, _ := d.observe(docA, hi)
 	d.rep.Count("dup-path:" + oa.Class)
+	d.variantCase(docA, hi, oa, true, "duplicate-path")
 	for _, docB := range [][]byte{mk(names[0], names[2]), mk(names[3], names[1])} {
 		ob, _, _ := d.observe(docB, hi)
 		if oa.Class == "ok" && ob.Class == "ok" && oa.Root == ob.Root {
